@@ -1155,7 +1155,12 @@ func (y *When) And() *When {
 func (y *When) inheritedBy(own *When) *When {
 	copy := *y
 	copy.parentContext = true
-	copy.and = own
+	if y.and != nil {
+		// y carries the conditions of the uses around its own uses already: all of them stay
+		copy.and = y.and.inheritedBy(own)
+	} else {
+		copy.and = own
+	}
 	return &copy
 }
 
